@@ -1,36 +1,46 @@
 (* C07: the executable spec written from the property text ([spec_c07], Spec/SpecC07.v) holds of the
    world model.  Only pinned statements, closed by [exact], with their assumptions printed.
 
-   FULL statement (the goal):
-     forall ops, dom ops = true ->
+     forall ops, dom07 ops = true ->
        spec_c07 ops (run world0 ops) = true \/ known_mixed_kinds ops (run world0 ops) = true
-   for ALL 44 operations of Model/World.v, [dom] collecting only the side conditions the spec assumes.
-   PROVED here ([..._partial]): the statement for every history of the sub-language [op_lang]
-   (Proofs/C07SpecStep.v) = all operations EXCEPT
-     OpLocal OpFlush OpClear OpDrop OpLvInc OpLvObserve OpLvRemove OpTimer OpTimerStop
-   (local metrics, timers, dropping a handle: missing) and OpCustom (outside the spec's assumption
-   "library collectors").  The domain [dom07 ops] (executable, Proofs/C07SpecRegs.v) is: every
-   operation is in the sub-language, const labels are maps (distinct keys), no OpClone of a
-   registry handle, every registration the model accepts finds the same-name descriptors of that
-   registry compatible ([register_compat]: equal dimension pre-images, i.e. no FNV-1a collision
-   between dimension hashes - [c07_dom_compat_is_no_collision]), and every unregistration the
-   model accepts names a slot that was registered in that registry. *)
+
+   for the histories of ALL operations of Model/World.v except OpCustom (the spec assumes library
+   collectors; a custom collector may expose anything).  Local metrics, timers and OpDrop are
+   covered; OpDrop may kill the handle of a registered collector or of a registry: the spec stays
+   true on the model (the proof follows such handles through a ghost slot table).
+   The domain [dom07 ops] (executable, Proofs/C07SpecRegs.v) collects the side conditions the spec
+   assumes: no OpCustom, const labels are maps (distinct keys), no OpClone of a registry handle
+   (the spec does not follow clones), every registration the model accepts finds the same-name
+   descriptors of that registry compatible ([register_compat]: equal dimension pre-images, i.e. no
+   FNV-1a collision between dimension hashes - [c07_dom_compat_is_no_collision]), and every
+   unregistration the model accepts names a slot that was registered in that registry (the spec
+   identifies collectors with slots).
+   The [..._partial] names are kept as aliases of the same statements. *)
 Require Import PV.Base.Prelude PV.Base.F64.
 Require Import PV.Model.Proto PV.Model.Desc PV.Model.Value PV.Model.Registry PV.Model.World.
 Require Import PV.Proofs.DescFacts PV.Proofs.C07SpecLabels PV.Proofs.C07SpecStep PV.Proofs.C07SpecRegs PV.Proofs.C07Spec.
 Require Import PV.Spec.SpecC07 PV.Spec.SpecC14.
 
-Theorem c07_spec_model_partial : forall ops, dom07 ops = true ->
+Theorem c07_spec_of_model : forall ops, dom07 ops = true ->
   spec_c07 ops (run world0 ops) = true \/ known_mixed_kinds ops (run world0 ops) = true.
 Proof. exact c07_spec_model. Qed.
+Theorem c07_spec_model_partial : forall ops, dom07 ops = true ->
+  spec_c07 ops (run world0 ops) = true \/ known_mixed_kinds ops (run world0 ops) = true.
+Proof. exact c07_spec_of_model. Qed.
 (* the sharper forms: strictly true unless collectors of different kinds meet under one name ... *)
-Theorem c07_spec_strict_partial : forall ops, dom07 ops = true ->
+Theorem c07_spec_of_model_strict : forall ops, dom07 ops = true ->
   mixed_kinds_registered ops (run world0 ops) = false -> spec_c07 ops (run world0 ops) = true.
 Proof. exact c07_spec_strict. Qed.
+Theorem c07_spec_strict_partial : forall ops, dom07 ops = true ->
+  mixed_kinds_registered ops (run world0 ops) = false -> spec_c07 ops (run world0 ops) = true.
+Proof. exact c07_spec_of_model_strict. Qed.
 (* ... and then everything but the family type still holds *)
-Theorem c07_known_delimited_partial : forall ops, dom07 ops = true ->
+Theorem c07_known_class_delimited : forall ops, dom07 ops = true ->
   mixed_kinds_registered ops (run world0 ops) = true -> known_mixed_kinds ops (run world0 ops) = true.
 Proof. exact c07_known_delimited. Qed.
+Theorem c07_known_delimited_partial : forall ops, dom07 ops = true ->
+  mixed_kinds_registered ops (run world0 ops) = true -> known_mixed_kinds ops (run world0 ops) = true.
+Proof. exact c07_known_class_delimited. Qed.
 
 (* the compatibility condition of the domain = equal dimension pre-images *)
 Theorem c07_dom_compat_is_no_collision : forall fq1 help1 vars1 consts1 d1 b1 fq2 help2 vars2 consts2 d2 b2,
@@ -56,10 +66,30 @@ Example c07_dom_c14_witness :
   /\ known_mixed_kinds ex_c14_witness (run world0 ex_c14_witness) = true.
 Proof. exact ex_c14_witness_in_domain. Qed.
 
+Example c07_dom_locals_drop :
+  dom07 ex_locals_drop = true /\ mixed_kinds_registered ex_locals_drop (run world0 ex_locals_drop) = false
+  /\ length (filter is_fams (run world0 ex_locals_drop)) = 5%nat
+  /\ spec_c07 ex_locals_drop (run world0 ex_locals_drop) = true.
+Proof. exact ex_locals_drop_in_domain. Qed.
+(* the domain excludes exactly OpCustom among the operations *)
+Example c07_op_lang_all_but_custom :
+  op_lang (OpLocal 0) = true /\ op_lang (OpFlush 0) = true /\ op_lang (OpClear 0) = true /\ op_lang (OpDrop 0) = true
+  /\ op_lang (OpLvInc 0 [] (VU 0)) = true /\ op_lang (OpLvRemove 0 []) = true /\ op_lang (OpTimer 0) = true
+  /\ op_lang (OpTimerStop 0 TRecord 0 0) = true /\ op_lang (OpClosure 0 0 0) = true /\ op_lang (OpCustom [] []) = false.
+Proof. repeat split; reflexivity. Qed.
+
+Check c07_spec_of_model : forall ops, dom07 ops = true ->
+  spec_c07 ops (run world0 ops) = true \/ known_mixed_kinds ops (run world0 ops) = true.
+Check c07_spec_of_model_strict : forall ops, dom07 ops = true ->
+  mixed_kinds_registered ops (run world0 ops) = false -> spec_c07 ops (run world0 ops) = true.
 Check c07_spec_model_partial : forall ops, dom07 ops = true ->
   spec_c07 ops (run world0 ops) = true \/ known_mixed_kinds ops (run world0 ops) = true.
 Check c07_spec_strict_partial : forall ops, dom07 ops = true ->
   mixed_kinds_registered ops (run world0 ops) = false -> spec_c07 ops (run world0 ops) = true.
+Print Assumptions c07_spec_of_model.
+Print Assumptions c07_spec_of_model_strict.
+Print Assumptions c07_known_class_delimited.
+Print Assumptions c07_dom_locals_drop.
 Print Assumptions c07_spec_model_partial.
 Print Assumptions c07_spec_strict_partial.
 Print Assumptions c07_known_delimited_partial.
